@@ -515,6 +515,34 @@ def r11_keep_comparison_total(idx, r):
               msg="array-valued kept parameters are compared with a shape-safe predicate (np.array_equal)")
 
 
+def r12_links_and_flags(idx, r):
+    """(a) ANY dimension of a component can hold a link to a neighbour (mult, modArea included): the routine that lifts links out of the
+    parameters before they are pickled scans the complete DIMENSION_NAMES table - a linked dimension left in place is pickled together with
+    a ghost copy of the neighbour and after the scope points at that copy.  (b) the SINCE_BACKUP bit of a collection's `assigned` word is
+    what restoreBackup reads to honour the keep-set: only the backup machinery itself clears it; every other `&= ~mask` names the one bit
+    it is about."""
+    f = idx.method("armi.reactor.components.component.Component", "_getLinkedDimsAndValues")
+    loop = next((x for x in walk_local(f.node) if isinstance(x, ast.For)), None)
+    r.require(loop is not None and norm(loop.iter) == "self.DIMENSION_NAMES", "_getLinkedDimsAndValues:scans-every-dimension", f, node=loop,
+              msg=f"links are looked for in `{norm(loop.iter) if loop is not None else '?'}` only: a linked dimension outside that table (e.g. `mult: fuel.mult`) stays in the parameters, is pickled with "
+                  "a copy of the neighbour, and after any retainState scope follows that dead copy instead of the live neighbour")
+    n = 0
+    for m in idx.modules.values():
+        if not m.name.startswith("armi.") or ".tests" in m.name:
+            continue
+        for fn in m.all_funcs():
+            for x in walk_local(fn.node):
+                if isinstance(x, ast.AugAssign) and isinstance(x.op, ast.BitAnd) and norm(x.target).endswith(".assigned") and isinstance(x.value, ast.UnaryOp) and isinstance(x.value.op, ast.Invert):
+                    n += 1
+                    mask = norm(x.value.operand)
+                    owner = fn.qualname in ("ParameterCollection.backUp", "ParameterCollection.restoreBackup", "ParameterDefinitionCollection.resetAssignmentFlag")
+                    wide = mask.endswith("SINCE_ANYTHING") or mask.endswith("SINCE_BACKUP")
+                    r.require(owner or not wide, f"{fn.qualname}:clears-only-its-own-bit", fn, node=x,
+                              msg=f"`{norm(x)}` also clears the SINCE_BACKUP bit: a keep-set scope in which the state is marked synchronised loses the kept values at exit (restoreBackup believes nothing was assigned)")
+    if n < 3:
+        raise AnalysisError(f"only {n} sites clearing assignment bits found")
+
+
 def run(idx, chk):
     chk.explanation = (
         "C16: StateRetainer's enter/exit symmetry and traversal; every backUp/restoreBackup pair in the tree pushing and popping a stack with "
@@ -541,3 +569,5 @@ def run(idx, chk):
                  necessary="after the scope every derived value (volumes included) is that of the restored state")
     chk.run_rule("R16.11", "the comparison that decides whether a kept value is re-applied cannot raise for arrays of different shapes", lambda r: r11_keep_comparison_total(idx, r), floor=1,
                  necessary="the roll-back completes for every object of the scope, whatever the kept values are")
+    chk.run_rule("R16.12", "links are lifted out of every dimension before pickling; only the backup machinery clears the SINCE_BACKUP bit", lambda r: r12_links_and_flags(idx, r), floor=4,
+                 necessary="after the scope every object is as before except the kept parameters, which keep their new values")
